@@ -53,10 +53,13 @@ impl CavDisplay3D {
             n_vec_from_res(&triag[0], &triag[1], cfg.x_res),
         ];
         let yrv = vec_from_res(0f64, 1f64, cfg.y_res);
+        // Normalise the c-curve by c(0), exactly as `gen_display_curtain` does, so that
+        // the bottom mesh meets the lower edge of the curtains.
+        let c_0 = c(0f64);
         let g = |x: [f64; 2]| {
             let mut cfx = c(f(x));
-            cfx[0] = x[0] - cfx[0];
-            cfx[1] = x[1] - cfx[1];
+            cfx[0] = x[0] - (cfx[0] - c_0[0]);
+            cfx[1] = x[1] - (cfx[1] - c_0[1]);
             cfx
         };
 
